@@ -236,15 +236,21 @@ def main():
     c03.validate(H, 100 if quick else 500)
     validate_contexts(H, 60 if quick else 300)
     budget = 4 if quick else 5
-    parts = [("type_check under 5 context shapes, B(%d) with holes" % budget, make_factory(H, budget)),
-             ("normalize_weak_head of context variables", normalize_obligations(H))]
-    for name, mk in parts:
+    import c06
+    import c12
+    if quick:
+        c12.GAMMAS[:] = [1, 3]
+    parts = [("type_check under 5 context shapes, B(%d) with holes" % budget, make_factory(H, budget), confirm),
+             ("normalize_weak_head of context variables", normalize_obligations(H), confirm),
+             ("unify under contexts, every former over leaves on both sides: context restored, verdict = reference under the same context",
+              c06.make_pairs(H, 0, 0, family=True, formers=c06.FORMERS_QUICK if quick else c06.FORMERS), c06.confirm)]
+    for name, mk, cf in parts:
         t0 = time.time()
         m = parallel_explore(mk, H.jobs)
         H.absorb_merged(name, m)
         H.log("%s: %d paths %s, %d obligations, %d discharged, %d workers, %.1fs" % (
             name, m.stats.get("paths", 0), m.counters, m.stats.get("obligations", 0), m.stats.get("discharged", 0), m.workers, time.time() - t0))
-        c03.handle(H, m.violations, confirm_fn=confirm, classify_fn=lambda l, c: None)
+        c03.handle(H, m.violations, confirm_fn=cf, classify_fn=lambda l, c: None)
     H.bounds.update({"programs": "parser-shaped terms of at most %d nodes with holes, open in contexts of 1-2 entries mixing parameters and definitions" % budget,
                      "outside": "longer contexts, larger terms"})
     return H.finish()
